@@ -1,6 +1,7 @@
 package mon
 
 import (
+	"encoding/hex"
 	"fmt"
 	"sort"
 	"strings"
@@ -277,6 +278,23 @@ func (m *C16) holdDecision(w *ops.World, st *ops.Step, chain string) {
 			continue
 		case cur == "":
 			cls = "no-key"
+		}
+		if wantHold == 0 && !removing {
+			// independent of the stored previous-key record: a key this operator set earlier (the harness remembers
+			// every acknowledged key) that is still in the validator set and is not another operator's current key
+			// means the operator is still validating with it until the epoch ends
+			if o := w.OperByAddr(op); o != nil {
+				for _, key := range o.Keys {
+					ca := strings.ToUpper(hex.EncodeToString(key.ConsAddr()))
+					if _, in := pre.Dog.Validators[ca]; !in {
+						continue
+					}
+					owner := pre.Op.Rev[chain+"|"+ca]
+					if owner == "" || owner == op {
+						wantHold, cls = 1, "earlier-key-of-this-operator-in-set"
+					}
+				}
+			}
 		}
 		m.S.Eval("hold-decision")
 		m.S.Case("hold-decision|" + cls)
